@@ -47,6 +47,9 @@ type zoneGen struct {
 	z   *dnsfx.Zone
 	n   int
 	ttl func() uint32
+	// self, when set, is the origin host name: a service record may name it as
+	// its explicit target ("host HTTPS 1 host" instead of ".")
+	self string
 }
 
 func (g *zoneGen) ip4() net.IP {
@@ -80,7 +83,13 @@ func (g *zoneGen) service(owner, label string) {
 	n := rapid.IntRange(1, 4).Draw(t, label+"_n")
 	for i := 0; i < n; i++ {
 		h := dns.HTTPS{Priority: uint16(rapid.IntRange(1, 3).Draw(t, label+"_prio"))}
-		switch rapid.IntRange(0, 3).Draw(t, label+"_target") {
+		tk := rapid.IntRange(0, 3).Draw(t, label+"_target")
+		if g.self != "" && rapid.IntRange(0, 5).Draw(t, label+"_target_self") == 0 {
+			tk = 4
+		}
+		switch tk {
+		case 4:
+			h.Target = g.self
 		case 1:
 			h.Target = "t1.example"
 		case 2:
@@ -206,7 +215,7 @@ func compareOutcome(res ech.ResolveResult, err error, want dnsfx.RefOutcome) str
 func TestC14(t *testing.T) {
 	rec := ev.Get("C14")
 	rec.Rule("random zones served by a loopback DoH server that answers like a recursive resolver (CNAME chain first, packets built with dnsmessage): host with A/AAAA (directly or through CNAME chains), at the RFC 9460 query name either nothing, NXDOMAIN, a service RRset (1..4 records, equal/distinct priorities, targets with/without addresses, ports, ALPN, ECH markers), or an alias chain of 0..8 links (loops, self alias, alias to '.', alias to a name with only addresses) optionally behind a CNAME; forced RCODEs 1..5 and 6..23 and HTTP 4xx on single (name,type) pairs; poison records (HTTPS with attacker ECH, A, AAAA, CNAME) owned by an unrelated name in every answer. Name forms: host, host:port (0/80/443/other), scheme://host[:port][/path] (http/https/other, mixed case), IP literals, localhost, over-long hosts, labels, schemes and constructed names. Oracle: reference resolver over the zone (RFC 9460 2.3/2.4.2/3), poison markers absent, query log (types, RFC-conformant names from the allowed set, count bound). distinct = (zone shape, name form); non-trivial = zone has HTTPS records or a CNAME for the queried name")
-	rec.Mandatory("longest_valid_host", "alias_loop", "alias_chain_gt_limit", "poison", "rcode:1", "rcode:2", "rcode:3", "rcode:4", "rcode:5", "port_non443_other_scheme", "overlong_scheme", "overlong_constructed", "overlong_host", "ip_literal", "service_with_targets", "cname_to_https", "nxdomain_https")
+	rec.Mandatory("longest_valid_host", "alias_loop", "alias_chain_gt_limit", "poison", "rcode:1", "rcode:2", "rcode:3", "rcode:4", "rcode:5", "port_non443_other_scheme", "overlong_scheme", "overlong_constructed", "overlong_host", "ip_literal", "service_with_targets", "cname_to_https", "nxdomain_https", "service_targets_origin_host")
 	rapid.Check(t, func(t *rapid.T) {
 		var cl []string
 		host := "svc.example"
@@ -250,7 +259,7 @@ func TestC14(t *testing.T) {
 		}
 		p := dnsfx.ParseInput(input)
 		z := dnsfx.NewZone()
-		g := &zoneGen{t: t, z: z, ttl: func() uint32 { return 60 }}
+		g := &zoneGen{t: t, z: z, ttl: func() uint32 { return 60 }, self: host}
 		svcb := host
 		if !expectInvalid && kind != 0 {
 			if p.Port != 80 && p.Port != 443 {
@@ -370,6 +379,9 @@ func TestC14(t *testing.T) {
 		}
 		if len(want.Additional) > 0 {
 			cl = append(cl, "service_with_targets")
+		}
+		if _, ok := want.Additional[want.Host]; ok && want.Err == "" {
+			cl = append(cl, "service_targets_origin_host")
 		}
 		var res ech.ResolveResult
 		var rerr error
